@@ -80,6 +80,8 @@ fn cert_desc(rec: &Value, idx: usize, is_leaf: bool) -> Value {
 			.map(|n| {
 				if sval(n, "v") == "dns" {
 					json!({"v": "dns", "val": hex(name_text(n).as_bytes()), "b": [], "oid": "", "dn": []})
+				} else if sval(n, "v") == "uri" {
+					json!({"v": "uri", "val": hex(format!("spiffe://{}/workload", name_text(n)).as_bytes()), "b": [], "oid": "", "dn": []})
 				} else {
 					json!({"v": "ip", "val": "", "b": n["b"], "oid": "", "dn": []})
 				}
